@@ -766,6 +766,11 @@ func (s *inProcessClientStream) recvMsgLocked(m interface{}, lastMessage bool) e
 			s.last = &r
 			return internal.TranslateContextError(r.err)
 		case kindData:
+			if s.state == streamStateHeaders {
+				// a message with no headers frame before it: the server sent no
+				// headers, so Header() must not wait for any
+				s.state = streamStateMessages
+			}
 			err := s.cloner.Copy(m, r.data)
 			if err == nil && lastMessage {
 				err = s.ensureNoMoreLocked(m)
